@@ -69,15 +69,24 @@ def build_symtab(cl, little, names, rng=None):
     return out, bytes(st.data)
 
 
-def build_sysv_hash(little, names, nbucket):
-    """hash table for symbols 1..len(names) (symbol 0 is the null symbol)"""
+def build_sysv_hash(little, names, nbucket, order="front", rng=None):
+    """hash table for symbols 1..len(names) (symbol 0 is the null symbol). The gABI fixes only that each bucket's chain
+    visits exactly the symbols hashing to it; order: "front" = linker-style push-front (links descend), "back" = links
+    ascend, "random" = any order"""
     nchain = len(names) + 1
     buckets = [0] * nbucket
     chains = [0] * nchain
+    members = {}
     for i, n in enumerate(names, start=1):
-        b = sysv_hash(n) % nbucket
-        chains[i] = buckets[b]
-        buckets[b] = i
+        members.setdefault(sysv_hash(n) % nbucket, []).append(i)
+    for b, ms in members.items():
+        if order == "front":
+            ms = ms[::-1]
+        elif order == "random" and rng is not None:
+            rng.shuffle(ms)
+        buckets[b] = ms[0]
+        for a, z in zip(ms, ms[1:] + [0]):
+            chains[a] = z
     out = enc(little, 4, nbucket) + enc(little, 4, nchain)
     for v in buckets + chains:
         out += enc(little, 4, v)
